@@ -469,7 +469,7 @@ FLAGS = {"nuw", "nsw", "exact", "inbounds", "fast", "nnan", "ninf", "nsz", "arcp
 CALL_SKIP = {"fastcc", "ccc", "coldcc"} | PARAM_ATTRS
 
 
-def parse_module(text, mod=None):
+def parse_module(text, mod=None, bodies=True):
     mod = mod or Module()
     lines = text.split("\n")
     i = 0
@@ -510,7 +510,8 @@ def parse_module(text, mod=None):
                 body.append(lines[i])
                 i += 1
             i += 1
-            parse_body(f, body, mod)
+            if bodies:
+                parse_body(f, body, mod)
             mod.funcs[name] = f
             continue
     return mod
